@@ -43,6 +43,22 @@ theorem map_fst_filter_ne (l : List (Nat × List Nat)) (i : Nat) :
   rw [List.filter_map]
   rfl
 
+theorem setSessions_map_fst (l : List (Nat × List Nat)) (i : Nat) (x : List Nat) :
+    (setSessions l i x).map (·.1) = l.map (·.1) := by
+  unfold setSessions
+  rw [List.map_map]
+  apply List.map_congr_left
+  intro p _
+  simp only [Function.comp]
+  split
+  · rename_i hp; exact hp.symm
+  · rfl
+
+theorem setSessions_length (l : List (Nat × List Nat)) (i : Nat) (x : List Nat) :
+    (setSessions l i x).length = l.length := by
+  unfold setSessions
+  rw [List.length_map]
+
 theorem dstep_idxInv {c : DCfg} {s s' : DSt} {l : DLabel} (h : dstep c s l = some s')
     (hi : IdxInv c s) : IdxInv c s' := by
   unfold IdxInv at *
@@ -85,6 +101,10 @@ theorem dstep_idxInv {c : DCfg} {s s' : DSt} {l : DLabel} (h : dstep c s l = som
     rw [List.append_assoc]
     apply List.Perm.append_left
     exact hp
+  | closeSession i k =>
+    obtain ⟨ss, _, _, _, rfl⟩ := dstep_closeSession_inv h
+    simp only [setSessions_map_fst]
+    exact hi
   | signal => obtain ⟨_, _, rfl⟩ := dstep_signal_inv h; exact hi
   | beginDrop => obtain ⟨_, _, _, rfl⟩ := dstep_beginDrop_inv h; exact hi
   | drop => obtain ⟨db, rest, _, _, rfl⟩ := dstep_drop_inv h; exact hi
@@ -110,6 +130,7 @@ theorem dstep_phaseInv {c : DCfg} {s s' : DSt} {l : DLabel} (h : dstep c s l = s
   | openSession i => obtain ⟨ss, f, hp, _, _, _, rfl⟩ := dstep_openSession_inv h; simp [hp]
   | sql i k t => obtain ⟨ss, f, _, _, _, _, _, _, _, rfl⟩ := dstep_sql_inv h; exact hi
   | finish i r b => obtain ⟨ss, hp, _, _, _, _, rfl⟩ := dstep_finish_inv h; simp [hp]
+  | closeSession i k => obtain ⟨ss, hp, _, _, rfl⟩ := dstep_closeSession_inv h; simp [hp]
   | signal => obtain ⟨_, _, rfl⟩ := dstep_signal_inv h; exact hi
   | beginDrop => obtain ⟨_, h1, h2, rfl⟩ := dstep_beginDrop_inv h; intro _; exact ⟨h1, h2⟩
   | drop => obtain ⟨db, rest, _, _, rfl⟩ := dstep_drop_inv h; exact hi
